@@ -368,8 +368,11 @@ ParentSupprAdd(c, key, rec, res) ==
           /\ SetSt(PName(c), "rsup2")
   /\ UNCHANGED <<ldup, edup, shown, emitted, xflag, result, pipe, chst, phase, unm, nfm, exit>>
 
+\* (the code first tries to add the entry and merges the state when it exists already; merging directly when the entry is
+\* known - without the failing add - is the same step as far as the lists are concerned, so both are behaviours)
 ParentSupprUpdate(c, key, checked, matched, found) ==
-  /\ PName(c) \in DOMAIN wk /\ wk[PName(c)].st = "rsup2"
+  /\ PName(c) \in DOMAIN wk /\ wk[PName(c)].st \in {"rsup", "rsup2"}
+  /\ wk[PName(c)].st = "rsup" => key \in DOMAIN sl["main"]
   /\ wk[PName(c)].pl = [k |-> key, ck |-> checked, mt |-> matched]
   /\ found = (key \in DOMAIN sl["main"])
   /\ sl' = IF found
